@@ -20,6 +20,8 @@ RULE = ("each case = one object and a history of 1..8 set_phosphosites (single i
 
 
 def cases(rng, tier):
+    for c in shared_child_cases(rng, tier):
+        yield c
     n = 120 if tier == "quick" else 1200
     for i in range(n):
         L = rng.randint(1, 12) if rng.random() < 0.4 else rng.randint(13, 40)
@@ -49,6 +51,19 @@ def cases(rng, tier):
         if len(expected_sites(s, hist)) <= (4 if tier == "quick" else 6):
             lines.append("o 1 phosdist")
         yield Case(lines, {"kind": "history-%d" % len(hist), "seq": s, "hist": hist}, nontrivial=True)
+
+
+def shared_child_cases(rng, tier):
+    """parent with sites; child = shuffle with every position frozen (same sequence, must be an independent object); sites set / cleared
+    on one of them must not show on the other"""
+    for _ in range(20 if tier == "quick" else 200):
+        L = rng.randint(1, 20)
+        s = "".join(rng.choice("STYSTYKEDRGAP") for _ in range(L))
+        sty = [j + 1 for j, c in enumerate(s) if c in "STY"] or [1]
+        lines = ["new 1 " + s, "setphos 1 " + " ".join(map(str, rng.sample(sty, min(len(sty), 2)))), "shufall 2 1", "o 2 getphos", "o 2 seq",
+                 "setphos 2 " + " ".join(map(str, rng.sample(sty, min(len(sty), 3)) + [0, L + 1])), "o 2 getphos", "o 1 getphos", "o 2 phosseq", "o 1 phosseq",
+                 "o 2 kappaphos", "o 1 kappaphos", "clearphos 2", "o 1 getphos", "o 2 getphos", "o 1 phosseq"]
+        yield Case(lines, {"kind": "shuffled-child-is-independent"})
 
 
 def expected_sites(seq, hist_prefix):
